@@ -27,8 +27,20 @@ def build_compiler():
     return os.path.join(driver.REPO, 'target', 'debug', 'eqlog')
 
 
+_GEN_CACHE = {}
+
+
 def generate(probe_files):
     """run the compiler (module mode) on the given .eql files; returns {basename: path of emitted .rs}"""
+    key = tuple(probe_files)
+    if key in _GEN_CACHE:
+        return _GEN_CACHE[key]
+    out = _generate(probe_files)
+    _GEN_CACHE[key] = out
+    return out
+
+
+def _generate(probe_files):
     exe = build_compiler()
     wd = os.path.join(driver.workdir(), 'gen_probes')
     ind, outd = os.path.join(wd, 'in'), os.path.join(wd, 'out')
